@@ -190,7 +190,7 @@ pub fn run(opts: &Opts) -> i32 {
     // generated programs over the whole surface grammar, and every one of them with a comment at
     // a token gap (all gaps of small programs in the thorough tier)
     {
-        let n_gen = if opts.thorough() { 6000 } else { 500 };
+        let n_gen = if opts.thorough() { 40_000 } else { 500 };
         let mut features: std::collections::BTreeMap<&'static str, u64> = Default::default();
         for k in 0..n_gen {
             let mut r2 = rng.fork();
@@ -205,6 +205,22 @@ pub fn run(opts: &Opts) -> i32 {
             for _ in 0..2 {
                 if let Some(doubled) = double_parens(&text, &mut rng) {
                     inputs.push((format!("genparen:{k}{suffix}"), format!("{prefix}{doubled}")));
+                }
+            }
+            if opts.thorough() && k < 4000 {
+                // every token gap of the first programs, one comment kind per gap in rotation
+                let raw = crate::c11::raw_stream(&text);
+                let mut gaps: Vec<usize> = vec![0];
+                gaps.extend(raw.spans.iter().map(|s| s.1));
+                gaps.retain(|g| text.is_char_boundary(*g));
+                gaps.dedup();
+                if gaps.len() <= 80 {
+                    for (gi, g) in gaps.iter().enumerate() {
+                        counter += 1;
+                        let mut t = text.clone();
+                        t.insert_str(*g, &COMMENTS[(gi + k) % COMMENTS.len()].replace('%', &counter.to_string()));
+                        inputs.push((format!("gencomment:{k}{suffix}"), format!("{prefix}{t}")));
+                    }
                 }
             }
             let n_comment = if opts.thorough() { 4 } else { 2 };
@@ -443,6 +459,10 @@ pub fn run(opts: &Opts) -> i32 {
         let _ = &only2;
         (tag, findings, stats, req, rendered)
     });
+    // whatever was neither answered nor reported as hung was not run (the watchdog tolerates a
+    // bounded number of abandoned threads): visible in the evidence, never silent
+    sink.add("inputs_total", inputs_copy.len() as u64);
+    sink.add("inputs_not_run", (inputs_copy.len() - results.len() - hung.len()) as u64);
     for i in &hung {
         let (tag, text) = &inputs_copy[*i];
         sink.count("hung");
